@@ -86,6 +86,10 @@ func genCase(w *bufio.Writer, rng *rand.Rand, kind string, k int) {
 			genSweepCase(w, rng, k, sweepOffsets[k])
 			return
 		}
+		if k < len(sweepOffsets)+4 { // then: everything withdrawn during a long gap -> reset-only snapshot at a peer holding a set
+			genEmptySnapCase(w, rng, k)
+			return
+		}
 		budget := []int{30, 60, 120, 250}[rng.Intn(4)]
 		genPfxCase(w, rng, k, budget)
 	case "fib":
